@@ -638,3 +638,14 @@ def ob_h_shared(ob):
     """SP2 purification multiplies the full packed Fock matrix: it only returns (and returns a symmetric idempotent density) if packing preserves the physical block exactly"""
     ob.note("this obligation is the one registered as C05.g; it is also decided here because SP2 purification multiplies the full packed Fock matrix: it only returns (and returns a symmetric idempotent density) if packing preserves the physical block exactly")
     _C05_mod.ob_g(ob)
+
+
+# ---- shared obligation: the converged density has the trace 2 nocc of its own molecule only if each density step is fed that molecule's occupation number ----
+from . import C04 as _C04_mod  # noqa: E402
+
+
+@obligation(PID, "i", title="[shared with C04.g] " + [e for e in __import__("engine.ob", fromlist=["REGISTRY"]).REGISTRY["C04"] if e[1] is _C04_mod.ob_g][0][3])
+def ob_i_shared(ob):
+    """the converged density has the trace 2 nocc of its own molecule only if each density step is fed that molecule's occupation number"""
+    ob.note("this obligation is the one registered as C04.g; it is also decided here because the converged density has the trace 2 nocc of its own molecule only if each density step is fed that molecule's occupation number")
+    _C04_mod.ob_g(ob)
